@@ -134,7 +134,7 @@ func c19Points(tier string) ([]c19Point, error) {
 	var ps []c19Point
 	for _, kt := range kts {
 		for _, pol := range []string{"password", "totp"} {
-			for _, ag := range []string{"present", "absent", "nolifetime", "foreign"} {
+			for _, ag := range []string{"present", "absent", "nolifetime", "foreign", "remove-fails-once"} {
 				for _, g := range []bool{false, true} {
 					for _, e := range edcas {
 						ps = append(ps, c19Point{KeyType: kt, Policy: pol, Agent: ag, AddGroups: g, Ed25519CA: e})
@@ -314,6 +314,7 @@ type c19Agent struct {
 	added []agent.AddedKey
 	nAdd  int
 	nRef  int
+	removeFailed bool
 	ln    net.Listener
 	path  string
 }
@@ -331,6 +332,21 @@ func (a *c19Agent) Add(k agent.AddedKey) error {
 		return errors.New("agent: key lifetimes are not supported")
 	}
 	return a.Agent.Add(k)
+}
+
+// Remove: in mode "remove-fails-once" the agent answers SSH_AGENT_FAILURE to the
+// first removal request it gets (a transient failure); later ones succeed.
+func (a *c19Agent) Remove(key ssh.PublicKey) error {
+	a.mu.Lock()
+	fail := a.mode == "remove-fails-once" && !a.removeFailed && a.nAdd > 0
+	if fail {
+		a.removeFailed = true
+	}
+	a.mu.Unlock()
+	if fail {
+		return errors.New("agent: failure")
+	}
+	return a.Agent.Remove(key)
 }
 
 const c19ForeignComment = "someone-elses-key"
@@ -1676,7 +1692,7 @@ func init() {
 		ID:       "C19",
 		Property: "C19",
 		Level:    "model_checking",
-		Rule: "exhaustive product keyPreference(read from the real flag) x server certificate policy {password, TOTP} x agent {present, absent, present-but-refusing-lifetimes, present-holding-foreign-identities (one of an unparsable key type listed first, one ordinary)} x addGroups x run {first, second} " +
+		Rule: "exhaustive product keyPreference(read from the real flag) x server certificate policy {password, TOTP} x agent {present, absent, present-but-refusing-lifetimes, present-holding-foreign-identities (one of an unparsable key type listed first, one ordinary), present-but-failing-the-first-removal-request} x addGroups x run {first, second} " +
 			"on the client's real setupCerts against the real keymasterd mux (child process, real TLS on loopback); states = client invocations, transitions = HTTP requests recorded; " +
 			"every request is recorded twice (RoundTripper level and plaintext written into the TLS connection) and expanded by all base64/base64url/hex/percent/PEM decodings two levels deep; " +
 			"a class is (configuration, run, outcome) where outcome = installed(agent entries, private files, certificates issued) or refused(request, status)",
@@ -1691,7 +1707,7 @@ func init() {
 		Bounds: func(tier string) map[string]interface{} {
 			kts, _ := c19KeyTypes()
 			ps, _ := c19Points(tier)
-			return map[string]interface{}{"key_types": kts, "policies": []string{"password", "totp"}, "agent_modes": []string{"present", "absent", "nolifetime", "foreign"},
+			return map[string]interface{}{"key_types": kts, "policies": []string{"password", "totp"}, "agent_modes": []string{"present", "absent", "nolifetime", "foreign", "remove-fails-once"},
 				"add_groups": []bool{false, true}, "runs_per_point": 2, "points": len(ps), "decode_depth": 2}
 		},
 		Shards: func(tier string) int { return 12 },
